@@ -582,6 +582,22 @@ pub fn c05(rec: &mut Rec, lm: &Landmarks, rng: &mut Rng, thorough: bool) {
                 m.to_scale(b);
                 m.to_scale(a);
             }
+            // no asymmetry between the two directions: the same instant held in a and in b differ by nothing, in either
+            // order, and an instant d later differs by d - through the difference of epochs as well
+            for k in 0..(if thorough { 40 } else { 6 }) {
+                let x = *rng.pick(&g.lms) + rng.below(1_000_000_007) as i128;
+                m.eload_dur(a, ns_dur(x));
+                let ea = m.e;
+                let eb = safe_epoch(|| ea.to_time_scale(b));
+                m.sub_e(eb);
+                let d = g.small_dur(rng);
+                if k % 2 == 0 {
+                    m.add_d(d, false);
+                    m.sub_e(eb);
+                }
+                m.eload_dur(b, eb.duration);
+                m.sub_e(ea);
+            }
             // reference epochs
             m.rec.episode();
             let r = catch(|| a.reference_epoch());
